@@ -43,5 +43,5 @@ def register(reg):
         ("Config", "_fields"): {"k": "str", "v": "ref:BaseField", "link": "_key"},
         ("Config", "_data"): {"k": "str", "v": "any"},
         ("Config", "_default_value_keys"): {"k": "str"},
-        ("Schema", "_validators"): {"v": "any"},
+        ("Schema", "_validators"): {"v": "ref:function"},
     }
